@@ -15,6 +15,7 @@ import (
 	"time"
 
 	"github.com/gnolang/gno/gno.land/pkg/gnoland"
+	"github.com/gnolang/gno/gno.land/pkg/sdk/vm"
 	"github.com/gnolang/gno/tm2/pkg/amino"
 	abci "github.com/gnolang/gno/tm2/pkg/bft/abci/types"
 	bft "github.com/gnolang/gno/tm2/pkg/bft/types"
@@ -71,11 +72,12 @@ func Render(path string) string { return Snap() }
 
 // C28Tx is one generated transaction.
 type C28Tx struct {
-	Kind   string `json:"k"` // tick | send | kvset | addpkg
+	Kind   string `json:"k"` // tick | send | kvset | addpkg | pkgcall
 	Signer int    `json:"s"`
 	To     int    `json:"to,omitempty"`
 	Amt    int64  `json:"amt,omitempty"`
 	Key    string `json:"key,omitempty"`
+	Pkg    int    `json:"pkg,omitempty"` // pkgcall: selects one of the packages deployed so far
 }
 
 type C28Block struct {
@@ -92,12 +94,23 @@ type C28Block struct {
 //	acct   auth/accounts/<addr of Acc>        (HSel>0: at an explicit height)
 //	store  .store/main/key /a/<addr of Acc>   (HSel>0: at an explicit height)
 //	sim    .app/simulate of a Tick tx of the dedicated simulate account
+//	pkgeval vm/qeval g<Pkg>.Get()             (reads a package deployed by a block)
+//	simtx  .app/simulate of a tx drawn from the block grammar, tied to tx I of
+//	       block B of the history:
+//	         Var 0: the block's own signed tx, byte for byte
+//	         Var 1: the same message sent by the simulate account; for an
+//	                addpkg the SAME path with a DIFFERENT body
+//	         Var 2: a MsgRun script performing the same realm mutation
+//	                (tick/kvset/pkgcall); for an addpkg the same path and body
 type C28Query struct {
 	Kind string `json:"k"`
 	Acc  int    `json:"acc,omitempty"`
 	Key  string `json:"key,omitempty"`
 	Pkg  int    `json:"pkg,omitempty"`
 	HSel int    `json:"h,omitempty"` // 0: no height; >0: explicit height 1+((HSel-1) mod (nblocks+1))
+	B    int    `json:"b,omitempty"` // simtx: block index
+	I    int    `json:"i,omitempty"` // simtx: tx index
+	Var  int    `json:"var,omitempty"`
 }
 
 type C28Case struct {
@@ -126,7 +139,7 @@ func (c C28Case) Valid() bool {
 	for _, b := range c.Blocks {
 		for _, t := range b.Txs {
 			switch t.Kind {
-			case "tick", "send", "kvset", "addpkg":
+			case "tick", "send", "kvset", "addpkg", "pkgcall":
 			default:
 				return false
 			}
@@ -134,7 +147,11 @@ func (c C28Case) Valid() bool {
 	}
 	for _, q := range c.Queries {
 		switch q.Kind {
-		case "snap", "render", "kv", "qfile", "acct", "store", "sim":
+		case "snap", "render", "kv", "qfile", "acct", "store", "sim", "pkgeval":
+		case "simtx":
+			if q.B < 0 || q.B >= len(c.Blocks) || q.I < 0 || q.I >= len(c.Blocks[q.B].Txs) || q.Var < 0 || q.Var > 2 {
+				return false
+			}
 		default:
 			return false
 		}
@@ -151,6 +168,10 @@ func (q C28Query) QKey() string {
 		return "qfile:" + strconv.Itoa(q.Pkg)
 	case "acct", "store":
 		return q.Kind + ":" + strconv.Itoa(q.Acc)
+	case "pkgeval":
+		return "pkgeval:" + strconv.Itoa(q.Pkg)
+	case "simtx":
+		return fmt.Sprintf("simtx:%d:%d:%d", q.B, q.I, q.Var)
 	}
 	return q.Kind
 }
@@ -178,7 +199,7 @@ func c28Addr(c C28Case, i int) ec.Key {
 func c28GenPkgPath(i int) string { return "gno.land/r/vv/g" + strconv.Itoa(i) }
 
 // Request builds the ABCI request of a query.
-func (q C28Query) Request(c C28Case, simTx []byte) abci.RequestQuery {
+func (q C28Query) Request(c C28Case, ref *C28Ref) abci.RequestQuery {
 	switch q.Kind {
 	case "snap":
 		return abci.RequestQuery{Path: "vm/qeval", Data: []byte(C28Path + ".Snap()")}
@@ -196,7 +217,15 @@ func (q C28Query) Request(c C28Case, simTx []byte) abci.RequestQuery {
 	case "store":
 		return abci.RequestQuery{Path: ".store/main/key", Data: append([]byte("/a/"), c28Addr(c, q.Acc).Addr.Bytes()...), Height: q.Height(c)}
 	case "sim":
-		return abci.RequestQuery{Path: ".app/simulate", Data: simTx}
+		return abci.RequestQuery{Path: ".app/simulate", Data: ref.SimTx}
+	case "simtx":
+		return abci.RequestQuery{Path: ".app/simulate", Data: ref.SimTxs[q.QKey()]}
+	case "pkgeval":
+		p := q.Pkg
+		if p < 0 {
+			p = -p
+		}
+		return abci.RequestQuery{Path: "vm/qeval", Data: []byte(c28GenPkgPath(p) + ".Get()")}
 	}
 	panic("bad query kind " + q.Kind)
 }
@@ -212,13 +241,13 @@ func (a C28Answer) OK() bool { return a.Err == "" }
 
 // C28Ask runs one query against the application. A panic escaping Query is
 // reported as an error string starting with "PANIC".
-func C28Ask(app *sdk.BaseApp, q C28Query, c C28Case, simTx []byte) (ans C28Answer) {
+func C28Ask(app *sdk.BaseApp, q C28Query, c C28Case, ref *C28Ref) (ans C28Answer) {
 	defer func() {
 		if p := recover(); p != nil {
 			ans = C28Answer{Err: fmt.Sprintf("PANIC %v", p)}
 		}
 	}()
-	r := app.Query(q.Request(c, simTx))
+	r := app.Query(q.Request(c, ref))
 	if r.Error != nil {
 		return C28Answer{Err: fmt.Sprintf("%T", r.Error)}
 	}
@@ -229,7 +258,7 @@ func C28Ask(app *sdk.BaseApp, q C28Query, c C28Case, simTx []byte) (ans C28Answe
 			return C28Answer{Err: "log-only: " + strings.SplitN(r.Log, "\n", 2)[0]}
 		}
 		return C28Answer{Data: hex.EncodeToString(r.Value), Height: r.Height}
-	case "sim":
+	case "sim", "simtx":
 		var res sdk.Result
 		if err := amino.Unmarshal(r.Value, &res); err != nil {
 			return C28Answer{Err: "undecodable simulate result: " + err.Error()}
@@ -252,6 +281,7 @@ type C28Ref struct {
 	Ticks  []int                   // successful ticks up to and including height h
 	Seq    []map[int]uint64        // model: sequence of account i at height h
 	SimTx  []byte
+	SimTxs map[string][]byte // QKey of a simtx query -> tx bytes
 	Last   int
 	AccRaw []map[int]string // hex raw account record at height h through the independent reader
 }
@@ -270,9 +300,51 @@ func (r *C28Ref) Model(h int) string {
 
 func c28Opts(c C28Case) ec.Options { return ec.Options{Prune: stypes.PruneStrategy(c.Prune)} }
 
-// c28BuildMsg builds the message of a generated tx; addpkg/kvset use the
-// running tx counter to be unique.
-func c28BuildMsg(c C28Case, t C28Tx, ctr int, npkg *int) std.Msg {
+// c28TxInfo is the position-dependent data of a generated tx.
+type c28TxInfo struct {
+	Ctr    int // running tx number (1-based)
+	PkgIdx int // addpkg: index of the deployed package
+	Target int // pkgcall: index of the called package
+}
+
+// c28Layout numbers the transactions of the history.
+func c28Layout(c C28Case) [][]c28TxInfo {
+	out := make([][]c28TxInfo, len(c.Blocks))
+	ctr, npkg := 0, 0
+	for b, blk := range c.Blocks {
+		for _, t := range blk.Txs {
+			ctr++
+			ti := c28TxInfo{Ctr: ctr, PkgIdx: -1}
+			switch t.Kind {
+			case "addpkg":
+				ti.PkgIdx = npkg
+				npkg++
+			case "pkgcall":
+				p := t.Pkg
+				if p < 0 {
+					p = -p
+				}
+				if npkg > 0 {
+					ti.Target = p % npkg
+				}
+			}
+			out[b] = append(out[b], ti)
+		}
+	}
+	return out
+}
+
+// c28PkgBody is the source of generated package i: the on-chain body, or the
+// different body a simulation tries to put at the same path.
+func c28PkgBody(i, ctr int, sim bool) string {
+	if sim {
+		return fmt.Sprintf("package g%d\n\nimport \"strconv\"\n\nvar Word = \"SIM%d\"\nvar Cnt int\nvar X = []int{-1}\n\nfunc Get() string { return \"sim:\" + Word }\n\nfunc Touch(cur realm) string {\n\tCnt += 1000\n\treturn \"sim:\" + Word + \"#\" + strconv.Itoa(Cnt+len(X))\n}\n", i, ctr)
+	}
+	return fmt.Sprintf("package g%d\n\nimport \"strconv\"\n\nconst Born = %d\n\nvar Word = \"chain%d\"\nvar Cnt int\nvar X = []int{%d}\n\nfunc Get() string { return Word + \"/\" + strconv.Itoa(X[0]) }\n\nfunc Touch(cur realm) string {\n\tCnt++\n\tX = append(X, Cnt)\n\treturn Word + \"#\" + strconv.Itoa(Cnt)\n}\n", i, ctr, ctr, ctr)
+}
+
+// c28BuildMsg builds the message of a generated tx.
+func c28BuildMsg(c C28Case, t C28Tx, ti c28TxInfo) std.Msg {
 	from := c28Addr(c, t.Signer)
 	switch t.Kind {
 	case "tick":
@@ -284,13 +356,48 @@ func c28BuildMsg(c C28Case, t C28Tx, ctr int, npkg *int) std.Msg {
 		}
 		return bank.MsgSend{FromAddress: from.Addr, ToAddress: c28Addr(c, t.To).Addr, Amount: std.Coins{std.NewCoin("ugnot", amt)}}
 	case "kvset":
-		return ec.Call(from.Addr, ec.PathKV, "Set", []string{t.Key, "v" + strconv.Itoa(ctr)}, nil)
+		return ec.Call(from.Addr, ec.PathKV, "Set", []string{t.Key, "v" + strconv.Itoa(ti.Ctr)}, nil)
 	case "addpkg":
-		i := *npkg
-		*npkg++
-		name := "g" + strconv.Itoa(i)
-		body := fmt.Sprintf("package %s\n\nconst Born = %d\n\nvar X = []int{%d}\n\nfunc Get() int { return X[0] }\n", name, ctr, ctr)
-		return ec.AddPkg(from.Addr, c28GenPkgPath(i), map[string]string{"a.gno": body}, nil)
+		return ec.AddPkg(from.Addr, c28GenPkgPath(ti.PkgIdx), map[string]string{"a.gno": c28PkgBody(ti.PkgIdx, ti.Ctr, false)}, nil)
+	case "pkgcall":
+		return ec.Call(from.Addr, c28GenPkgPath(ti.Target), "Touch", nil, nil)
+	}
+	panic("bad tx kind")
+}
+
+// c28SimMsg builds the message of a simtx query (Var 1 and 2), sent by the
+// simulate account.
+func c28SimMsg(c C28Case, q C28Query, lay [][]c28TxInfo) std.Msg {
+	t, ti := c.Blocks[q.B].Txs[q.I], lay[q.B][q.I]
+	from := c28SimKey.Addr
+	run := func(imp, stmt string) std.Msg {
+		body := "package main\n\nimport \"" + imp + "\"\n\nfunc main(cur realm) {\n\t" + stmt + "\n}\n"
+		return vm.NewMsgRun(from, nil, []*std.MemFile{{Name: "main.gno", Body: body}})
+	}
+	switch t.Kind {
+	case "tick":
+		if q.Var == 2 {
+			return run(C28Path, "println(q28.Tick(cross(cur)))")
+		}
+		return ec.Call(from, C28Path, "Tick", nil, std.Coins{std.NewCoin("ugnot", 1000)})
+	case "send":
+		amt := t.Amt
+		if amt < 1 {
+			amt = 1
+		}
+		return bank.MsgSend{FromAddress: from, ToAddress: c28Addr(c, t.To).Addr, Amount: std.Coins{std.NewCoin("ugnot", amt)}}
+	case "kvset":
+		if q.Var == 2 {
+			return run(ec.PathKV, "println(kv.Set(cross(cur), \""+t.Key+"\", \"runv\"))")
+		}
+		return ec.Call(from, ec.PathKV, "Set", []string{t.Key, "simv"}, nil)
+	case "addpkg":
+		return ec.AddPkg(from, c28GenPkgPath(ti.PkgIdx), map[string]string{"a.gno": c28PkgBody(ti.PkgIdx, ti.Ctr, q.Var == 1)}, nil)
+	case "pkgcall":
+		if q.Var == 2 {
+			return run(c28GenPkgPath(ti.Target), "println(g"+strconv.Itoa(ti.Target)+".Touch(cross(cur)))")
+		}
+		return ec.Call(from, c28GenPkgPath(ti.Target), "Touch", nil, nil)
 	}
 	panic("bad tx kind")
 }
@@ -306,28 +413,39 @@ func c28QueryKeys(c C28Case) map[string]C28Query {
 	return out
 }
 
-// C28RunRef runs the history without any concurrent query on a plain memdb;
-// after every commit it records, sequentially, the answer of every distinct
-// query of the plan.
+// C28RunRef produces the reference in two sequential runs on plain memdbs.
+// Run A executes the history with no vm/store/simulate query at all (only the
+// harness's signing path looks up account numbers) and fixes raw txs, tx
+// results and app hashes. Run B replays the raw txs and, after every commit,
+// records the answer of every distinct query of the plan; queries issued
+// strictly between blocks are one particular interleaving, so run B must
+// reproduce run A's results and hashes (a divergence is a violation).
 func C28RunRef(c C28Case) (*C28Ref, error) {
 	keys := c28Keys(c)
+	lay := c28Layout(c)
+	gen := func() gnoland.GnoGenesisState {
+		return ec.GenesisWithBalances(1e13, append(append([]ec.Key{}, keys...), c28SimKey)...)
+	}
+	// ---------------- run A
 	db := memdb.NewMemDB()
-	ch, _, err := ec.New(db, ec.GenesisWithBalances(1e13, append(append([]ec.Key{}, keys...), c28SimKey)...), c28Opts(c))
+	ch, _, err := ec.New(db, gen(), c28Opts(c))
 	if err != nil {
 		return nil, fmt.Errorf("harness: reference InitChain: %v", err)
 	}
-	ref := &C28Ref{Ans: map[string][]C28Answer{}}
-	// the simulate tx: a Tick of the dedicated account (never transacts, so
-	// number/sequence in its signature never matter; simulate skips the check)
+	ref := &C28Ref{Ans: map[string][]C28Answer{}, SimTxs: map[string][]byte{}}
 	ai, err := ch.Account(c28SimKey.Addr)
 	if err != nil {
 		return nil, fmt.Errorf("query-free reference run (harness signing path queries the account): %v", err)
 	}
-	stx := ec.SignTx(ec.ChainID, []std.Msg{ec.Call(c28SimKey.Addr, C28Path, "Tick", nil, std.Coins{std.NewCoin("ugnot", 1000)})},
-		std.Fee{GasWanted: 60_000_000, GasFee: std.NewCoin("ugnot", 1_000_000)}, "", []ec.Key{c28SimKey}, []uint64{ai.Number}, []uint64{0})
-	ref.SimTx, _ = amino.Marshal(stx)
+	signSim := func(msg std.Msg) []byte {
+		stx := ec.SignTx(ec.ChainID, []std.Msg{msg}, std.Fee{GasWanted: 60_000_000, GasFee: std.NewCoin("ugnot", 1_000_000)}, "", []ec.Key{c28SimKey}, []uint64{ai.Number}, []uint64{0})
+		bz, _ := amino.Marshal(stx)
+		return bz
+	}
+	// the plain simulate tx: a Tick of the dedicated account (never transacts,
+	// so number/sequence in its signature never matter; simulate skips the check)
+	ref.SimTx = signSim(ec.Call(c28SimKey.Addr, C28Path, "Tick", nil, std.Coins{std.NewCoin("ugnot", 1000)}))
 
-	qs := c28QueryKeys(c)
 	seq := map[int]uint64{}
 	ticks := 0
 	record := func(raw [][]byte, res []ec.TxResult, hash []byte, t int64) error {
@@ -341,9 +459,6 @@ func C28RunRef(c C28Case) (*C28Ref, error) {
 			s[k] = v
 		}
 		ref.Seq = append(ref.Seq, s)
-		for k, q := range qs {
-			ref.Ans[k] = append(ref.Ans[k], C28Ask(ch.App, q, c, ref.SimTx))
-		}
 		rd, err := ec.OpenReader(db)
 		if err != nil {
 			return fmt.Errorf("harness: independent reader: %v", err)
@@ -361,9 +476,6 @@ func C28RunRef(c C28Case) (*C28Ref, error) {
 	}
 	// height 0 placeholder
 	ref.Raw, ref.Res, ref.Hash, ref.T, ref.Ticks, ref.Seq, ref.AccRaw = [][][]byte{nil}, [][]ec.TxResult{nil}, []string{""}, []int64{0}, []int{0}, []map[int]uint64{{}}, []map[int]string{{}}
-	for k := range qs {
-		ref.Ans[k] = []C28Answer{{Err: "height 0"}}
-	}
 	// block 1: deploy the realms (account 0)
 	t := int64(1)
 	ch.Begin(t)
@@ -385,8 +497,7 @@ func C28RunRef(c C28Case) (*C28Ref, error) {
 	if err := record(raw, res, hash, t); err != nil {
 		return nil, err
 	}
-	ctr, npkg := 0, 0
-	for _, blk := range c.Blocks {
+	for b, blk := range c.Blocks {
 		dt := blk.DT
 		if dt < 1 {
 			dt = 1
@@ -394,20 +505,14 @@ func C28RunRef(c C28Case) (*C28Ref, error) {
 		t += dt
 		ch.Begin(t)
 		raw, res = nil, nil
-		for _, tx := range blk.Txs {
-			ctr++
+		for i, tx := range blk.Txs {
 			k := c28Addr(c, tx.Signer)
-			idx := tx.Signer
-			if idx < 0 {
-				idx = -idx
-			}
-			idx %= len(keys)
-			rr, txb, err := ch.Send([]std.Msg{c28BuildMsg(c, tx, ctr, &npkg)}, 60_000_000, 1_000_000, k)
+			rr, txb, err := ch.Send([]std.Msg{c28BuildMsg(c, tx, lay[b][i])}, 60_000_000, 1_000_000, k)
 			if err != nil {
 				return nil, fmt.Errorf("query-free reference run (harness signing path queries the account): %v", err)
 			}
 			if rr.GasWanted > 0 {
-				seq[idx]++
+				seq[c28AccIdx(c, tx.Signer)]++
 			}
 			if tx.Kind == "tick" && rr.Error == nil {
 				ticks++
@@ -421,6 +526,41 @@ func C28RunRef(c C28Case) (*C28Ref, error) {
 		}
 	}
 	ref.Last = len(ref.Hash) - 1
+	// the simulate txs of the plan
+	for _, q := range c.Queries {
+		if q.Kind != "simtx" {
+			continue
+		}
+		if q.Var == 0 {
+			ref.SimTxs[q.QKey()] = ref.Raw[q.B+2][q.I]
+		} else {
+			ref.SimTxs[q.QKey()] = signSim(c28SimMsg(c, q, lay))
+		}
+	}
+	// ---------------- run B: same blocks, every distinct query after every commit
+	qs := c28QueryKeys(c)
+	for k := range qs {
+		ref.Ans[k] = []C28Answer{{Err: "height 0"}}
+	}
+	chB, _, err := ec.New(memdb.NewMemDB(), gen(), c28Opts(c))
+	if err != nil {
+		return nil, fmt.Errorf("harness: reference InitChain (run B): %v", err)
+	}
+	for h := 1; h <= ref.Last; h++ {
+		chB.Begin(ref.T[h])
+		for i, tx := range ref.Raw[h] {
+			if r := c28Result(chB.Deliver(tx)); r != ref.Res[h][i] {
+				return nil, fmt.Errorf("queries issued strictly BETWEEN blocks (after each commit, sequentially) changed block %d tx %d:\n with queries=%+v\n query-free  =%+v", h, i, r, ref.Res[h][i])
+			}
+		}
+		_, hash := chB.End()
+		if hex.EncodeToString(hash) != ref.Hash[h] {
+			return nil, fmt.Errorf("queries issued strictly BETWEEN blocks (after each commit, sequentially) changed the app hash of block %d", h)
+		}
+		for k, q := range qs {
+			ref.Ans[k] = append(ref.Ans[k], C28Ask(chB.App, q, c, ref))
+		}
+	}
 	// sanity of the reference against the independent model
 	for h := 1; h <= ref.Last; h++ {
 		if a, ok := ref.Ans["snap"]; ok && a[h].OK() && a[h].Data != `("`+ref.Model(h)+`" string)` {
@@ -441,6 +581,23 @@ var c28SeqRe = regexp.MustCompile(`"sequence":\s*"(\d+)"`)
 // after height h+1, whose unversioned base store (GnoVM objects) is already at
 // h+1: one answer mixes two heights.
 const C28KeyStaleHeight = "query-reads-height-before-pinning-snapshot"
+
+// C28KeyLiveFallback is the known-finding key of the divergence reported as
+// *C28LiveRace: a .store query for the height whose Commit is under way cannot
+// be served from the query snapshot (not refreshed yet), so handleQueryStore
+// falls back to the legacy live path, which reads the mutable store through
+// CollectingDB while rootmulti.Commit drains the collector: between Drain
+// (pending ops cleared) and the end of WriteSync the new version's root record
+// is in neither place, VersionExists (Has, answered just before the drain) and
+// GetRoot (Get, just after) disagree, and MutableTree.GetVersioned turns the
+// resulting ErrVersionDoesNotExist into a silent nil value: the response says
+// "key absent" without any error or log.
+const C28KeyLiveFallback = "store-query-live-fallback-between-drain-and-write"
+
+// C28LiveRace is the error returned for that recognised divergence.
+type C28LiveRace struct{ Msg string }
+
+func (m *C28LiveRace) Error() string { return m.Msg }
 
 // C28Mix is the error returned for that recognised divergence.
 type C28Mix struct{ Msg string }
@@ -464,8 +621,11 @@ func c28IsStaleHeightMix(ref *C28Ref, q C28Query, data string, lo, hi int) (h1, 
 		return 0, 0, false
 	}
 	bt := b / 1000
-	if q.Kind == "sim" { // the simulated Tick itself adds one to both
+	switch {
+	case q.Kind == "sim", q.Kind == "simtx" && q.Var < 2: // the simulated Tick itself adds one to both
 		n, bt = n-1, bt-1
+	case q.Kind == "simtx": // Tick through MsgRun: no coins sent
+		n = n - 1
 	}
 	h1, h2 = -1, -1
 	for h := lo; h <= hi && h <= ref.Last; h++ {
@@ -526,7 +686,11 @@ func C28Check(ref *C28Ref, c C28Case, q C28Query, a C28Answer, lo, hi int) (int,
 			return -1, fmt.Errorf("query %+v for explicit height %d was answered (%s) although only heights up to %d could be committed", q, eh, c28Short(a.Data), hi)
 		}
 		if !match(int(eh)) {
-			return -1, fmt.Errorf("query %+v for explicit height %d answered %s; the query-free run has at that height: %s (err %q)", q, eh, c28Short(a.Data), c28Short(want[eh].Data), want[eh].Err)
+			msg := fmt.Sprintf("query %+v for explicit height %d answered %s; the query-free run has at that height: %s (err %q)", q, eh, c28Short(a.Data), c28Short(want[eh].Data), want[eh].Err)
+			if q.Kind == "store" && a.Data == "" && int(eh) == hi && int(eh) > lo {
+				return -1, &C28LiveRace{Msg: msg + "\n  => \"key absent\" answered for the height whose Commit was under way"}
+			}
+			return -1, fmt.Errorf("%s", msg)
 		}
 		return int(eh), nil
 	}
@@ -562,7 +726,7 @@ func C28Check(ref *C28Ref, c C28Case, q C28Query, a C28Answer, lo, hi int) (int,
 		}
 	}
 	msg := fmt.Sprintf("query %+v answered %s, which is not the answer of any single height in [%d,%d] (heights committed while it ran); query-free answers:%s", q, c28Short(a.Data), lo, hi, desc())
-	if q.Kind == "snap" || q.Kind == "render" || q.Kind == "sim" {
+	if q.Kind == "snap" || q.Kind == "render" || q.Kind == "sim" || q.Kind == "simtx" {
 		if h1, h2, ok := c28IsStaleHeightMix(ref, q, a.Data, lo, hi); ok {
 			return -1, &C28Mix{Msg: fmt.Sprintf("%s\n  => the answer combines the GnoVM state of height %d with the main-store balance of height %d", msg, h2, h1)}
 		}
